@@ -467,7 +467,7 @@ func (w *World) Yield(point, name string) {
 
 // alwaysRecorded yield points are logged on every pass (they are gate /
 // ordering events for the oracles).
-var alwaysRecorded = map[string]bool{"runner.released": true, "shutdown.enter": true, "shutdown.return": true, "runner.afterRun": true, "shutdown.afterPrepare": true, "run.afterBackoff": true, "stop.afterCancel": true}
+var alwaysRecorded = map[string]bool{"runner.released": true, "shutdown.enter": true, "shutdown.return": true, "runner.afterRun": true, "shutdown.afterPrepare": true, "run.afterBackoff": true, "stop.afterCancel": true, "Run.loopDone": true}
 
 // AliveInfo describes one live simulated command.
 type AliveInfo struct {
